@@ -41,7 +41,13 @@ def parse_time(text):
     """xsd:dateTime / ISO 8601 extended format, 'T' separator required"""
     if not _DATETIME.match(text):
         raise ValueError("not an xsd:dateTime lexical form: %r" % (text,))
+    end_of_day = "T24:00:00" in text
+    if end_of_day:
+        # xsd:dateTime: 24:00:00 is the first instant of the following day
+        text = text.replace("T24:00:00", "T00:00:00")
     dt = datetime.datetime.fromisoformat(text.replace("Z", "+00:00") if text.endswith("Z") else text)
+    if end_of_day:
+        dt += datetime.timedelta(days=1)
     off = dt.utcoffset()
     return ("dt", dt.isoformat(), None if off is None else off.total_seconds())
 
@@ -241,6 +247,9 @@ def read_value(one, scope, problems, where):
         if extra:
             problems.append("%s: literal object with unknown keys %s" % (where, sorted(extra)))
         lang = one.get("lang")
+        if lang == "" and "type" not in one:
+            # an empty language tag is no language tag (as xml:lang="")
+            return ("str", str(one["$"]))
         dturi = None
         if "type" in one:
             if not isinstance(one["type"], str):
